@@ -41,9 +41,17 @@ pub struct Ctx {
     pub replaying: bool,
 }
 
+static DIR_COUNTER: std::sync::atomic::AtomicU64 = std::sync::atomic::AtomicU64::new(0);
+
 impl Ctx {
     pub fn bin(&self, name: &str) -> PathBuf {
         self.bin_dir.join(name)
+    }
+    /// a scratch directory name that no other worker of this process uses (never shared, so
+    /// concurrent cases cannot remove each other's files)
+    pub fn fresh_dir(&self, prefix: &str) -> PathBuf {
+        let k = DIR_COUNTER.fetch_add(1, std::sync::atomic::Ordering::SeqCst);
+        self.scratch.join(format!("{}-u{}", prefix, k))
     }
 }
 
